@@ -428,7 +428,7 @@ PROPS["C17"] = dict(
     level="exploration",
     journal=True,
     technique="property-based testing (rapid): state-machine model of the keyring API; generated rotation interleavings on real clusters, also under the race detector",
-    rule=("(a) keyring API: NewKeyring(keys, primary) with valid (16/24/32 bytes), invalid (0/15/17/33), nil and duplicate keys, then 0-30 calls of AddKey / "
+    rule=("(a2) concurrent calls on one ring: 2-3 threads with 1-3 calls each (AddKey/UseKey/RemoveKey/GetKeys/GetPrimaryKey, mostly on the same two keys) released together on a fresh ring, 400 (thorough 4000) repetitions per plan; every distinct outcome (per-call results and final ring) must be explained by some sequential order of the calls that keeps each thread's order, and the final ring starts with the primary and holds no key twice; non-trivial = plans in which two threads write the same key. " "(a) keyring API: NewKeyring(keys, primary) with valid (16/24/32 bytes), invalid (0/15/17/33), nil and duplicate keys, then 0-30 calls of AddKey / "
           "UseKey / RemoveKey / GetKeys / GetPrimaryKey with keys from the same pool, starting from empty and non-empty rings, against an ordered-set model: after "
           "every call the primary is element 0 and what GetPrimaryKey returns, no duplicates, all lengths valid, errors exactly for invalid length / UseKey of an "
           "absent key / RemoveKey of the primary, the ring equals the model, no panic, and every slice previously returned by GetKeys still equals the deep copy "
@@ -439,6 +439,8 @@ PROPS["C17"] = dict(
           "primary, UseKey of an absent key, duplicate AddKey; (b) = steps performed in an order that differs between phases or n>=3"),
     tests=[
         dict(name="model", run="^TestKeyringModel$", quick=dict(shards=4, checks=20000, timeout=300), thorough=dict(shards=8, checks=500000, timeout=1800)),
+        dict(name="concurrent", run="^TestKeyringConcurrent$", quick=dict(shards=4, checks=100, timeout=600), thorough=dict(shards=5, checks=3000, timeout=3400)),
+        dict(name="concurrent-race", run="^TestKeyringConcurrent$", race=True, quick=dict(shards=4, checks=60, timeout=600), thorough=dict(shards=5, checks=1500, timeout=3400)),
         dict(name="rotation", run="^TestKeyRotation$", quick=dict(shards=8, checks=12, timeout=600), thorough=dict(shards=12, checks=500, timeout=3000)),
         dict(name="rotation-race", run="^TestKeyRotation$", race=True, quick=dict(shards=4, checks=4, timeout=900), thorough=dict(shards=4, checks=150, timeout=3400)),
     ],
